@@ -163,7 +163,12 @@ func c19Bar(c c19Cfg, samples *[]ioCall) (*mpb.Progress, *mpb.Bar) {
 		if c.ewma == 3 {
 			ds = append(ds, wrapDepth(ewmaRec{wc, &c19Second}, 1))
 		}
-		opts = append(opts, mpb.AppendDecorators(ds...))
+		if c.ewma == 3 {
+			// one moving-average decorator on each side of the bar
+			opts = append(opts, mpb.PrependDecorators(ds[0]), mpb.AppendDecorators(ds[1]))
+		} else {
+			opts = append(opts, mpb.AppendDecorators(ds...))
+		}
 	}
 	t := c.total
 	if t < 0 {
